@@ -68,10 +68,19 @@ def r19_1(ctx, S, prog, crate):
     if not ctx.check(thr is not None, "R19.1", [b.path, "threshold-test"], "no threshold comparison on the tuning edge", b.where(tune_t)):
         return tune_sw
     x, tt, cmp_ = thr
-    ctx.check(cmp_["op"] == "Le" and const_int(cmp_["b"]) == 100, "R19.1", [b.path, "threshold-is-le-100"],
-              "threshold test is `%s %s`, expected `<= 100`" % (cmp_["op"], cmp_["b"].get("c", {}).get("d")), b.where(x), detail={"op": cmp_["op"], "const": const_int(cmp_["b"])})
+    # canonical form of the test, whatever its spelling (`m <= 100`, `m > 100`, `100 < m`, `m < 101` ...): Lt(100, m)
+    from lib.symexpr import Sym, bool_switch, show as _show
+    SY = Sym(b)
+    bs = bool_switch(b, SY, x)
+    okthr = bs is not None and bs[0][0] == "Lt" and bs[0][1] == ("int", 100)
+    ctx.check(okthr, "R19.1", [b.path, "threshold-is-le-100"],
+              "the threshold test is %s, expected: keep tuning while multiple <= 100, i.e. until 100 < multiple" % (_show(("cmp",) + bs[0]) if bs else "not a comparison"), b.where(x),
+              detail={"canonical": "Lt(100, multiple)"})
+    if not okthr:
+        return tune_sw
     # multiple = slowest_time.picos / timer_precision.picos
-    dm = direct_place(b, cmp_["a"])
+    mop = cmp_["a"] if const_int(cmp_["a"]) is None else cmp_["b"]
+    dm = direct_place(b, mop)
     ok = dm is not None and dm[0] == "rvalue" and dm[1]["k"] == "binop" and dm[1]["op"] == "Div"
     if ctx.check(ok, "R19.1", [b.path, "multiple-is-quotient"], "the compared quantity is not a quotient", b.where(x)):
         num = b.prov.op_src(dm[1]["a"])
@@ -89,8 +98,7 @@ def r19_1(ctx, S, prog, crate):
                         cb = prog.bodies.get((b.crate, norm(d[3]["rv"]["def"]), -1))
                         names = [q.callee for q in cb.live_calls()]
                         ctx.check(names == ["stats::sample::RawSample::duration"], "R19.1", [b.path, "slowest-by-duration"], "max_by_key key calls %s" % names, cb.where(0))
-    le_t = tt["otherwise"]
-    gt_t = [a[1] for a in tt["arms"] if a[0] == "0"][0]
+    gt_t, le_t = bs[1], bs[2]
     le_blocks = tables.exclusive_blocks(b, le_t, [gt_t], stop=[S.loop["header"]])
     gt_blocks = tables.exclusive_blocks(b, gt_t, [le_t], stop=[S.loop["header"]])
     modes = {"le": [], "gt": []}
@@ -102,15 +110,10 @@ def r19_1(ctx, S, prog, crate):
     if ctx.check(len(modes["le"]) == 1 and modes["le"][0][1]["rv"]["variant"] == "Tune", "R19.1", [b.path, "keep-tuning-when-le"],
                  "within the threshold the mode becomes %s" % [m[1]["rv"]["variant"] for m in modes["le"]], b.where(le_t)):
         y, s = modes["le"][0]
-        d = direct_place(b, s["rv"]["ops"][0])
-        if d and d[0] == "place" and d[2] and d[2][0] == 0:
-            dfs = b.prov.defs.get(d[1], [])
-            if len(dfs) == 1 and dfs[0][0] == "S":
-                d = ("rvalue", dfs[0][3]["rv"])
-        ok = d is not None and d[0] == "rvalue" and d[1]["k"] == "binop" and d[1]["op"] in ("Mul", "MulWithOverflow") and const_int(d[1]["b"]) == 2
-        if ok:
-            dd = direct_place(b, d[1]["a"])
-            ok = dd is not None and dd[0] == "call" and dd[1].callee == "benchmark::BenchMode::sample_size" and dd[1].bb in S.loop["body"]
+        e = SY.op(s["rv"]["ops"][0])
+        # 2 * size, size * 2, size + size, size << 1 written as a product: canonical linear form with coefficient 2
+        ok = e[0] == "lin" and e[2] == 0 and len(e[1]) == 1 and e[1][0][1] == 2 and e[1][0][0][0] == "site" and \
+            e[1][0][0][1] == "benchmark::BenchMode::sample_size" and e[1][0][0][2] in S.loop["body"]
         ctx.check(ok, "R19.1", [b.path, "doubles"], "the next tuning size is not this round's sample_size * 2", b.where(y), detail={"factor": 2})
     if ctx.check(len(modes["gt"]) == 1 and modes["gt"][0][1]["rv"]["variant"] == "Collect", "R19.1", [b.path, "collect-when-gt"],
                  "past the threshold the mode becomes %s" % [m[1]["rv"]["variant"] for m in modes["gt"]], b.where(gt_t)):
@@ -259,8 +262,6 @@ def run(ctx, prog, crate):
         return
     ctx.saw(S.body)
     info = r19_1(ctx, S, prog, crate)
-    if info is not None and len(info) == 3 and not isinstance(info[0][0], int):
-        pass
     if isinstance(info, tuple) and len(info) == 3 and isinstance(info[1], set):
         r19_2(ctx, S, prog, crate, info)
         r19_3(ctx, S, info)
